@@ -43,3 +43,11 @@ func (m *Manager) VerifRegistered(conn *Connection) bool {
 // VerifSetLastActivity backdates / sets the connection's last-activity
 // timestamp (to reach the keepalive-timeout branch of keepaliveLoop).
 func (c *Connection) VerifSetLastActivity(t time.Time) { c.lastActivity.Store(t.UnixNano()) }
+
+// VerifConfig returns the reconnection parameters this reconnector runs with.
+func (r *Reconnector) VerifConfig() ReconnectConfig { return r.cfg }
+
+// VerifKeepalive returns the keepalive parameters this manager runs with.
+func (m *Manager) VerifKeepalive() (interval, timeout time.Duration, jitter float64) {
+	return m.cfg.KeepaliveInterval, m.cfg.KeepaliveTimeout, m.cfg.KeepaliveJitter
+}
